@@ -3,3 +3,6 @@ import ThunderProofs.Properties.C03
 #print axioms TM.Properties.C03.merge_diff_any_matching
 #print axioms TM.Properties.C03.uncompress_compress
 #print axioms TM.Properties.C03.merge_diff_self
+#print axioms TM.Properties.C03.mergeJs_diff
+#print axioms TM.Properties.C03.merge_diff_strict
+#print axioms TM.Properties.C03.diff_self
